@@ -54,7 +54,7 @@ KINDS = ['deepcopy', 'pickle', 'deepcopy_with', 'copy', 'copy_with', 'cast',
 
 
 def plan(tier):
-  n = 60 if tier == 'quick' else 9000
+  n = 110 if tier == 'quick' else 9000
   return [{'name': f's{i}', 'kind': 'main', 'n': n, 'start': i * n} for i in range(16)]
 
 
